@@ -16,7 +16,9 @@ RULE = ('one case = one value (or nested list, or expression) pushed through the
         'compositions); nested lists of rank 1..3 with OPTION BASE unset/0/1, DIMmed exactly / larger / not at all, '
         'of every variable type, with bool and unicode leaves; random expressions over API-set variables for '
         'evaluate-versus-PRINT; random multi-step histories mixing API writes, BASIC statements and garbage '
-        'collection; non-trivial = not the zero/empty value')
+        'collection; API round trips of scalars (short and 40-character names), lists and string expressions with the '
+        'free memory steered by FRE(0) feedback to a few bytes around what the operation needs, before and after '
+        'collecting the string garbage placed above the live strings; non-trivial = not the zero/empty value')
 EXPLANATION = ('theorems (PcbV.Props.C43): int_roundtrip / int_out_of_range / bool_roundtrip; float_roundtrip '
                '(truncation by less than one unit in the last place, exact when representable), '
                'float_roundtrip_exact, float_zero/underflow/overflow/nan; bytes_roundtrip; string_roundtrip '
@@ -26,7 +28,9 @@ EXPLANATION = ('theorems (PcbV.Props.C43): int_roundtrip / int_out_of_range / bo
                'get_variable (lists: CLEAR / OPTION BASE / DIM through Session.execute) and compared with the '
                'compiled Lean model. Oracle: written from the statement with fractions.Fraction (floats), Python\'s '
                'own cp437 codec plus the control-picture table (strings), plain Python lists (arrays), parsing of '
-               'the PRINT output (evaluate). Reading of the statement for arrays: the list reads back as the same '
+               'the PRINT output (evaluate); memory-pressure episodes: the same round trips with the free memory steered to a '
+               'few bytes around the need of the operation - exact result or a clean Out of memory / Out of string '
+               'space, every other variable intact, also after a forced collection. Reading of the statement for arrays: the list reads back as the same '
                'list when the array has the list\'s shape (DIM); when the array is larger (DIMmed larger, or '
                'auto-dimensioned to 10 by the first write, as the pinned unit test test_session expects) the list '
                'reads back embedded at the origin and every other element is untouched.')
@@ -915,6 +919,247 @@ def run_history(ch, ctx, steps, ops=None):
             return
 
 
+# ---------------------------------------------------------------------------------------------
+# API round trips under memory pressure
+
+SIZES = {'%': 2, '!': 4, '#': 8, '$': 3}
+
+
+def _rand_name(rng, sigil, used):
+    while True:
+        n = rng.choice((1, 2, 2, 3, 5, 9, 17, 33, 40))
+        name = rng.choice('ABCDEFGHIJKLMNOPQRSTUVW') + ''.join(rng.choice('ABCXYZ0123456789.') for _ in range(n - 1))
+        name += sigil
+        if name not in used and not name.startswith('FN'):
+            return name
+
+
+def _rand_value(rng, sigil, maxlen=255):
+    if sigil == '%':
+        return rng.choice((32767, -32768, rng.randint(-32768, 32767), rng.randint(1, 9)))
+    if sigil in '!#':
+        # at most 24 significant bits: exact in both precisions
+        v = math.ldexp(rng.getrandbits(24) | 1, rng.randint(-40, 40))
+        return -v if rng.random() < 0.5 else v
+    n = min(maxlen, rng.choice((0, 1, 2, 5, 17, 60, 200, 255, rng.randint(0, 255))))
+    return bytes(rng.randrange(33, 127) for _ in range(n))
+
+
+def _default(sigil):
+    return {'%': 0, '!': 0.0, '#': 0.0, '$': b''}[sigil]
+
+
+def pressure_episode(ch, ctx, ep_seed):
+    """One API round trip performed with the free memory a few bytes above or below what it needs.
+
+    Prologue (all parameters from a PRNG seeded with ep_seed): variables of every type with known values, string
+    garbage ABOVE the live strings (a string variable assigned twice), then memory is filled by DIM of an integer
+    array sized by feedback from FRE(0) (which does not collect), so that `leave` bytes stay free, where `leave`
+    is drawn around (a) what the operation needs and (b) what it needs once the garbage has been collected.
+    Operation: set_variable of a new / existing scalar of any type (also with a long name), set_variable of a
+    list into a new or declared array, or evaluate of a string expression that needs temporaries.
+    Expected: the exact round trip, or a clean Out of memory / Out of string space with the old value kept;
+    afterwards - also after a forced collection - every variable of the session still reads back its value,
+    through get_variable and through evaluate.  Never a Python exception, never another string's text."""
+    rng = __import__('random').Random(ep_seed)
+    s = ch.s
+    case = {'kind': 'pressure', 'seed': ep_seed}
+
+    def fail(cls, what):
+        ctx.fail('pressure:%s:%s' % (kind, cls), case, 'episode %d (%s): %s' % (ep_seed, descr, what))
+
+    kind, descr = 'setup', 'prologue'
+    try:
+        s.execute(b'NEW')
+        s.execute(b'CLEAR')
+        expected = {}
+
+        def put(name, v, api=True):
+            if api or not isinstance(v, int):
+                s.set_variable(name, v)
+            else:
+                s.execute(('%s=%d' % (name, v)).encode())
+            expected[name] = v
+
+        # garbage first: it has to lie above the strings that are to move
+        gname = _rand_name(rng, '$', expected)
+        lg = rng.choice((0, 4, 10, 30, 100, rng.randint(1, 200)))
+        put(gname, bytes([103]) * lg)
+        put(gname, _rand_value(rng, '$', 40))
+        for sigil in rng.sample('%!#$$$', rng.randint(2, 6)):
+            put(_rand_name(rng, sigil, expected), _rand_value(rng, sigil, 80), api=rng.random() < 0.7)
+        if rng.random() < 0.5:
+            lst = [_rand_value(rng, '$', 30) for _ in range(rng.randint(1, 3))]
+            s.execute(b'DIM KS$(%d)' % (len(lst) - 1))
+            put('KS$()', lst)
+        if rng.random() < 0.3:
+            g2 = _rand_name(rng, '$', expected)
+            l2 = rng.randint(1, 60)
+            put(g2, bytes([104]) * l2)
+            put(g2, b'')
+            lg += l2
+        put('P$', b'')
+        # ---- the operation
+        kind = rng.choice(('scalar-new', 'scalar-new', 'scalar-new', 'scalar-old', 'list-new', 'list-old', 'eval'))
+        sigil = rng.choice('%!#$$$')
+        if kind == 'eval':
+            sigil = '$'
+        old = None
+        if kind == 'scalar-new':
+            name = _rand_name(rng, sigil, expected)
+            value = _rand_value(rng, sigil)
+            need = max(3, len(name)) + 1 + SIZES[sigil] + (len(value) if sigil == '$' else 0)
+            tail = max(3, len(name)) + 1 + SIZES[sigil]
+        elif kind == 'scalar-old':
+            name = rng.choice(sorted(n for n in expected if n.endswith(sigil) and not n.endswith('()') and n != 'P$')
+                              or [gname])
+            sigil = name[-1]
+            old = expected.pop(name)
+            value = _rand_value(rng, sigil)
+            need = len(value) if sigil == '$' else 0
+            tail = 0
+        elif kind in ('list-new', 'list-old'):
+            name = _rand_name(rng, sigil, expected)[:rng.choice((2, 3, 8, 41))].rstrip('%!#$.') + sigil
+            while name in expected:
+                name = 'L' + name
+            rank = rng.choice((1, 1, 1, 2))
+            shape = [rng.randint(1, 4) for _ in range(rank)]
+            value = [_rand_value(rng, sigil, 40) for _ in range(shape[0])] if rank == 1 else \
+                [[_rand_value(rng, sigil, 25) for _ in range(shape[1])] for _ in range(shape[0])]
+            strs = sum(len(v) for v in (value if rank == 1 else sum(value, []))) if sigil == '$' else 0
+            if kind == 'list-old':
+                dims = [n - 1 + rng.randint(0, 2) for n in shape]
+                s.execute(('DIM %s(%s)' % (name, ','.join(map(str, dims)))).encode())
+                need = tail = strs
+                tail = 0
+            else:
+                dims = [10] * rank
+                tail = 1 + max(3, len(name)) + 3 + 2 * rank + (11 ** rank) * SIZES[sigil]
+                need = tail + strs
+            old = embed([] if rank == 1 else [], [d + 1 for d in dims], _default(sigil))
+            name += '()'
+        else:
+            keep = sorted(n for n in expected if n.endswith('$') and not n.endswith('()') and n != 'P$')
+            a, b = rng.choice(keep), rng.choice(keep)
+            k = rng.randint(0, 120)
+            name, value = rng.choice((
+                ('%s+%s' % (a, b), expected[a] + expected[b]),
+                ('%s+SPACE$(%d)' % (a, k), expected[a] + b' ' * k),
+                ('STRING$(%d,"q")+%s' % (k, b), b'q' * k + expected[b]),
+                ('MID$(%s+%s,2)' % (a, b), (expected[a] + expected[b])[1:]),
+            ))
+            if len(value) > 255:
+                value = None
+            need = 2 * len(value or b'') + 1
+            tail = 0
+        descr = '%s %s' % (kind, name)
+        # free memory to leave: around the need before collection, or around the need after collection
+        centre = rng.choice((need, need, tail, max(0, need - lg), max(0, tail - lg))) if lg else rng.choice((need, tail))
+        w = max(3, len(name)) + 6
+        leave = max(0, centre + rng.choice((rng.randint(-w, 3), rng.randint(-w, w), rng.randint(-3, 3), 0, 1, -1)))
+        f = int(s.evaluate(b'FRE(0)'))
+        n = (f - leave - 11) // 2
+        if n < 0:
+            ctx.count('pressure:skipped')
+            return
+        s.execute(b'DIM Z%%(%d)' % n)
+        f2 = int(s.evaluate(b'FRE(0)'))
+        pad = f2 - leave
+        if 0 < pad < leave:
+            s.set_variable('P$', b'p' * pad)
+            expected['P$'] = b'p' * pad
+        free = int(s.evaluate(b'FRE(0)'))
+        descr += ' with %d bytes free (needs about %d, %d bytes of garbage)' % (free, need, lg)
+        case['descr'] = descr
+        # ---- act
+        status = 'ok'
+        if kind == 'eval':
+            got = s.evaluate(name)
+            if got is None:
+                status = 'err'
+            elif got != value:
+                fail('wrong-value', 'evaluate returned %s, expected %s' % (trunc(got), trunc(value)))
+                return
+        else:
+            try:
+                s.set_variable(name, value)
+            except Exception as e:
+                status = classify_exc(e)
+                if status not in ('err 7', 'err 14'):
+                    fail(status.replace(' ', '-'), 'set_variable raised %r' % (e,))
+                    return
+        ctx.case(('pressure', ep_seed))
+        ctx.count('pressure:%s:%s' % (kind, 'ok' if status == 'ok' else 'clean-error'))
+
+        # ---- observe: twice, the second time after a forced garbage collection
+        def observe(stage):
+            for nm, v in sorted(expected.items()):
+                got = s.get_variable(nm)
+                if nm.endswith('()'):
+                    got = got[:len(v)]
+                if got != v:
+                    fail('other-variable-changed', '%s: %s reads %s, expected %s' % (stage, nm, trunc(got), trunc(v)))
+                    return False
+                if not nm.endswith('()') and s.evaluate(nm) != v:
+                    fail('other-variable-changed', '%s: evaluate(%s) gives %s, expected %s'
+                         % (stage, nm, trunc(s.evaluate(nm)), trunc(v)))
+                    return False
+            if kind == 'eval':
+                return True
+            got = s.get_variable(name)
+            if kind.startswith('scalar'):
+                choices = [value] if status == 'ok' else [old if old is not None else _default(sigil)]
+                if got not in choices or type(got) is not type(choices[0]):
+                    fail('target-wrong', '%s: %s after set_variable (%s) reads %s, expected %s'
+                         % (stage, name, status, trunc(got), trunc(choices[0])))
+                    return False
+                ev = s.evaluate(name)
+                if ev != got:
+                    fail('target-evaluate', '%s: evaluate(%s) gives %s but get_variable %s'
+                         % (stage, name, trunc(ev), trunc(got)))
+                    return False
+                if sigil == '$' and status == 'ok' and len(value) < 250:
+                    out = s.execute(('PRINT LEN(%s);"[";%s;"]"' % (name, name)).encode())
+                    # long lines wrap; the PRINT itself may run out of string space (clean error)
+                    if b'Out of ' not in out and out.replace(b'\r\n', b'').strip() != b'%d [%s]' % (len(value), value):
+                        fail('target-print', '%s: PRINT shows %s' % (stage, trunc(out)))
+                        return False
+            else:
+                if got == [] and status != 'ok':
+                    return True
+                want = embed(value, extent(got), _default(sigil)) if status == 'ok' else None
+                if status == 'ok' and got != want:
+                    fail('target-wrong', '%s: %s reads %s, expected %s' % (stage, name, trunc(got), trunc(want)))
+                    return False
+                if status != 'ok':
+                    # a failed list assignment may have stored a prefix: every element is new or default
+                    flat_new = embed(value, extent(got), None) if all(
+                        a <= b for a, b in zip(extent(value), extent(got))) and len(extent(got)) == rank else None
+                    if flat_new is not None:
+                        def okelem(g, nw):
+                            if isinstance(g, list):
+                                return all(okelem(x, y) for x, y in zip(g, nw))
+                            return g == _default(sigil) or g == nw
+                        if not okelem(got, flat_new):
+                            fail('target-wrong', '%s: %s after a failed assignment reads %s' % (stage, name, trunc(got)))
+                            return False
+            return True
+
+        if not observe('right after'):
+            return
+        s.evaluate(b'FRE("")')
+        observe('after a garbage collection')
+    except Exception as e:
+        ctx.fail('pressure:%s:exc-%s' % (kind, type(e).__name__), case,
+                 'episode %d (%s): %s raised out of the session API: %r' % (ep_seed, descr, type(e).__name__, e))
+        ch.fresh()
+
+
+def run_pressure(ch, ctx, n):
+    for _ in range(n):
+        pressure_episode(ch, ctx, ctx.rng.getrandbits(40))
+
+
 def run(ctx):
     quick = ctx.quick
     ch = Checker(ctx)
@@ -941,6 +1186,9 @@ def run(ctx):
         for _ in range(150 if quick else 2000):
             run_history(ch, ctx, ctx.rng.choice((10, 40, 120)))
         ctx.log('histories done')
+        ch.fresh()
+        run_pressure(ch, ctx, 400 if quick else 6000)
+        ctx.log('memory-pressure episodes done')
     finally:
         ch.close()
 
@@ -973,6 +1221,8 @@ def replay(ctx, payload):
             ch.eval_case(case['expr'])
         elif kind == 'hist':
             run_history(ch, sub, 0, ops=case['ops'])
+        elif kind == 'pressure':
+            pressure_episode(ch, sub, case['seed'])
     finally:
         ch.close()
     hits = [f for f in sub.failures if f['key'] == payload.get('key')] or sub.failures
